@@ -24,6 +24,7 @@ CONSTANTS OpenDev,       \* ids of open findings
           NRandBlk,      \* random blocks per random family
           NSeq2, NSeq3,  \* random continuations (length 2 / 3) per (start, first setter) ...
           SeqEvery, Seed,\* ... for the blocks k with (k + Seed) % SeqEvery = 0
+          FmtEvery,      \* format-fragment blocks k with (k + Seed) % FmtEvery = 0 are generated
           NBase          \* base tuples of the pairwise Date.UTC family (1 or 2)
 VARIABLES blk, cs
 
@@ -199,7 +200,7 @@ Js(c) ==
       [] c.fam = "cutc"  -> <<"TV(Date.UTC(">> \o VArgs(c.vs, 1) \o <<"))">>
       [] c.fam = "cctor" -> <<"TV(new Date(">> \o VArgs(c.vs, 1) \o <<").getTime())">>
       [] c.fam = "cnew"  -> <<"TV(new Date(", Lit(c.v), ").getTime())">>
-      [] c.fam = "cset"  -> <<"var d = new Date(", Lit(NumV(c.t)), "); [TV(d." \o c.m \o "(">> \o VArgs(c.vs, 1) \o <<")), TV(d.getTime())]">>
+      [] c.fam = "cset"  -> <<"var d = new Date(", Lit(NumV(c.t)), "); [TRYV(function(){ return TV(d." \o c.m \o "(">> \o VArgs(c.vs, 1) \o <<")); }), TV(d.getTime())]">>
       [] c.fam = "this"  -> <<"Date.prototype." \o c.m \o ".call(" \o c.js \o ", 1)">>
       [] c.fam = "json"  -> IF c.o.t = "none" THEN <<"Date.prototype.toJSON.call(" \o c.o.js \o ")">>
                             ELSE <<"Date.prototype.toJSON.call(MKJ(", Lit(c.o.id), ",", Lit(c.o.vo), ",", Lit(c.o.ts), ",", Lit(c.o.iso), "))">>
@@ -216,7 +217,7 @@ Blocks ==
                                   \cup {<<"cset", k>> : k \in 1..(Len(ConvSetters2) * Len(ConvT0))} ELSE {})
     \cup (IF "this" \in Fams THEN {<<"this", 0>>, <<"json", 0>>} ELSE {})
     \cup (IF "self" \in Fams THEN {<<"special", 0>>, <<"year", 38>>} ELSE {})
-    \cup (IF "parse" \in Fams THEN {<<"parse", i>> : i \in 1..Len(ParseYears)} \cup {<<"fmt", k>> : k \in 1..(Len(FmtYears) * Len(FmtMD))} ELSE {})
+    \cup (IF "parse" \in Fams THEN {<<"parse", i>> : i \in 1..Len(ParseYears)} \cup {<<"fmt", k>> : k \in {x \in 1..(Len(FmtYears) * Len(FmtMD)) : (x + Seed) % FmtEvery = 0}} ELSE {})
 
 Utc(a) == [fam |-> "utc", a |-> a]
 Cases(b) ==
